@@ -11,7 +11,7 @@ import zoneinfo
 import uberjob
 from hypothesis import given, strategies as st
 from uberjob._value_store import ValueStore
-from uberjob.stores import JsonFileStore, PathSource
+from uberjob.stores import JsonFileStore, LiteralSource, ModifiedTimeSource, PathSource
 
 from vlib import refmodel, runner
 from vlib.util import uncanon
@@ -110,6 +110,10 @@ def make_store(name, box):
             f.write("src")
         os.utime(path, (box["instants"]["src"], box["instants"]["src"]))
         return PathSource(path)
+    if name == "src" and box.get("src_store") in ("literal", "mtsource") and box["reprs"][name][0] not in FILE_KINDS:
+        # the bundled in-memory sources: they report whatever datetime the user constructed them with
+        t = represent(box["instants"]["src"], box["reprs"]["src"])
+        return LiteralSource("src", t) if box["src_store"] == "literal" else ModifiedTimeSource(t)
     if box["reprs"][name][0] in FILE_KINDS:
         return StampedFileStore(os.path.join(box["dir"], name + ".json"), name, box)
     return TimedStore(name, box)
@@ -146,7 +150,8 @@ def cases(draw):
                     st.tuples(st.just("fixed"), st.sampled_from([-720, -300, -210, 0, 60, 330, 345, 630, 840])).map(list),
                     st.tuples(st.just("zone"), st.sampled_from(ZONES)).map(list))
     assigns = [{n: draw(rep) for n in NAMES} for _ in range(6)]
-    return {"zone_hint": zone, "inst": inst, "has_fresh": has_fresh, "assigns": assigns}
+    return {"zone_hint": zone, "inst": inst, "has_fresh": has_fresh, "assigns": assigns,
+            "src_store": draw(st.sampled_from(["timed", "literal", "mtsource"]))}
 
 
 def set_tz(name):
@@ -164,13 +169,13 @@ def expected(inst, has_fresh):
     return sorted({1: "a", 2: "b", 3: "c"}[i] for i in ood if i != 0)
 
 
-def run_cell(inst, has_fresh, reprs, directory=None):
+def run_cell(inst, has_fresh, reprs, directory=None, src_store="timed"):
     box = {"written": [], "instants": {k: v for k, v in inst.items() if k != "fresh"}, "reprs": reprs,
-           "now": max(inst.values()) + 10, "dir": directory}
+           "now": max(inst.values()) + 10, "dir": directory, "src_store": src_store}
     plan = uberjob.Plan()
     reg = uberjob.Registry()
     src = reg.source(plan, make_store("src", box))
-    a = plan.call(lambda x: ("a", x), src)
+    a = plan.call(lambda x: ("a", str(x)), src)  # (a ModifiedTimeSource yields a datetime; file stores hold JSON)
     reg.add(a, make_store("a", box))
     b = plan.call(lambda x: ("b", x), a)
     reg.add(b, make_store("b", box))
@@ -222,9 +227,11 @@ def check_case(ctx, case, record=True, only=None):
                 ctx.case(key_case, nt, [f"tz:{z}", "mixed_repr" if len(kinds) > 1 else "uniform:" + next(iter(kinds))[0]]
                          + (["file_store"] if any(reprs[n][0] in FILE_KINDS for n in used) else [])
                          + (["path_source"] if reprs["src"][0] == "path" else [])
+                         + (["src_is_bundled_" + case["src_store"]] if case.get("src_store", "timed") != "timed"
+                            and reprs["src"][0] not in FILE_KINDS else [])
                          + (["repeated_hour"] if rep_hour and naive_used else []) + (["fresh"] if has_fresh else []))
             try:
-                got = run_cell(inst, has_fresh, reprs, directory)
+                got = run_cell(inst, has_fresh, reprs, directory, case.get("src_store", "timed"))
             except Exception as e:
                 ctx.violation(key_case, f"[TZ={z} reprs={reprs}] run raised {e!r} cause {getattr(e, '__cause__', None)!r}",
                               key=classify(z, reprs, used, rep_hour))
